@@ -87,18 +87,23 @@ def observe_state(mage, d, spec):
 
 
 def rewrite(d, files):
-    """replace the sources of a project directory (go.mod and the probe package stay)"""
+    """edit the sources of a project directory IN PLACE (go.mod and the probe package stay): a file that is kept is
+    overwritten, not re-created, so its directory entry (and the directory's mtime) does not change"""
     for root, dirs, fs in os.walk(d):
         if os.path.relpath(root, d).split(os.sep)[0] == "probe":
             continue
         for f in fs:
-            if f.endswith(".go"):
-                os.remove(os.path.join(root, f))
+            p = os.path.join(root, f)
+            if f.endswith(".go") and os.path.relpath(p, d) not in files:
+                os.remove(p)
     for rel, text in files.items():
         p = os.path.join(d, rel)
         os.makedirs(os.path.dirname(p), exist_ok=True)
-        with open(p, "w") as f:
+        if os.path.exists(p) and open(p).read() == text:
+            continue
+        with open(p, "r+" if os.path.exists(p) else "w") as f:
             f.write(text)
+            f.truncate()
 
 
 def observe_history(mage, states):
